@@ -13,7 +13,7 @@ META = dict(
     ),
     assumptions=[
         "after the first raising pass the rest of the sequence is not judged for that document",
-        "work is counted as Python call events; the 60 s CPU alarm backs it up",
+        "work is counted as Python call events; the 15 s CPU limit backs it up",
     ],
     floors={"nontrivial": (0.5, None)},
     stall_s=180,
